@@ -493,7 +493,7 @@ func (ch c13) Run(c *core.Ctx) {
 			continue
 		}
 		rng := core.NewRng(c.Seed, "C13", 0, i)
-		k := c13case{NCols: 1 + rng.Intn(20), Format: int16(rng.Intn(2)), Exec: rng.Intn(3) == 0, Term: core.Pick(rng, terms), Handler: core.Pick(rng, handlers), OwnErr: rng.Intn(5)}
+		k := c13case{NCols: core.Pick(rng, []int{1, 2, 3, 5, 20, 255, 256, 1000, 1600}), Format: int16(rng.Intn(2)), Exec: rng.Intn(3) == 0, Term: core.Pick(rng, terms), Handler: core.Pick(rng, handlers), OwnErr: rng.Intn(5)}
 		for n := rng.Intn(9); n > 0; n-- {
 			k.Seq = append(k.Seq, core.Pick(rng, []string{"d", "d", "d", "H", "S"}))
 		}
